@@ -505,8 +505,8 @@ impl Check for LspCheck {
     }
     fn units(&self, tier: Tier, _seed: u64) -> u64 {
         match self.mode {
-            LMode::Locations => tier.pick(32, 320),
-            _ => tier.pick(48, 480),
+            LMode::Locations => tier.pick(96, 640),
+            _ => tier.pick(96, 640),
         }
     }
     fn run_unit(&self, unit: u64, ctx: &mut Ctx) {
@@ -601,7 +601,7 @@ impl Check for LspCheck {
     fn floors(&self, tier: Tier) -> Vec<(&'static str, u64)> {
         match self.mode {
             LMode::Locations => {
-                let n = tier.pick(100, 4000);
+                let n = tier.pick(300, 8000);
                 vec![("workspaces", n), ("definition_cross_file", n), ("definition_same_file", n), ("references_requests", n * 10), ("non_ascii", n / 4), ("crlf", n / 10), ("diagnostics_in_included_file", n / 20), ("documentLink_nonempty", n / 2), ("inlayHint_nonempty", n / 2)]
             }
             _ => vec![("exhaustive_sessions", tier.pick(400, 2500)), ("random_sessions", tier.pick(150, 8000)), ("sessions_burst", 100), ("quiescent_points", tier.pick(1000, 20_000)), ("action:with-include", 500), ("action:resend-same-text", 200)],
